@@ -76,13 +76,19 @@ def meta_events(draw, max_tick=200, max_events=3, unit=1, with_noise=False, tick
             # several control changes may share a tick as long as their controller numbers differ (bank select 0 + 32, pedals);
             # half of the time a further one is put on the tick of an earlier one
             prev_cc = [e for e in ev if e[0] == "cc"]
-            if prev_cc and draw(st.booleans()):
-                t = draw(st.sampled_from(prev_cc))[1]
             ctl = draw(st.one_of(st.sampled_from([0, 32, 64, 66, 7]), st.integers(0, 127)))
-            if ("cc", t, ctl) in seen:
+            if prev_cc and draw(st.booleans()):
+                earlier = draw(st.sampled_from(prev_cc))
+                t = earlier[1]
+                if draw(st.booleans()):
+                    ctl = earlier[2]
+            val = draw(st.one_of(st.integers(0, 127), st.sampled_from([0, 127])))
+            # (the same controller may be written twice on one tick with different values - pedal down and up again; the later
+            # message is the one in force, so their order is content)
+            if ("cc", t, ctl, val) in seen:
                 continue
-            seen.add(("cc", t, ctl))
-            ev.append(["cc", t, ctl, draw(st.integers(0, 127))])
+            seen.add(("cc", t, ctl, val))
+            ev.append(["cc", t, ctl, val])
             continue
         if (kind, t) in seen:
             continue
@@ -117,7 +123,7 @@ def route(draw, n_msgs_hint=24, allow_post=True):
     if r == "abs_ins":
         d["perm"] = draw(st.lists(st.integers(0, 50), min_size=1, max_size=n_msgs_hint))
     if allow_post:
-        d["post"] = draw(st.sampled_from([None, None, "normalise", "refresh", "read_abs", "read_rel"]))
+        d["post"] = draw(st.sampled_from([None, None, "normalise", "refresh", "read_abs", "read_rel", "getters", "copy"]))
     return d
 
 
@@ -127,6 +133,17 @@ CHANNEL_POOLS = [(0, 1), (0, 1), (0, 1), (0, 15), (14, 15), (9, 10), (3,), (0, 1
 
 def channel_pool():
     return st.sampled_from(CHANNEL_POOLS)
+
+
+def late_notes(draw, spec, one_in=5):
+    """with probability 1/one_in: some notes (only ones whose (channel, pitch) occurs once, so no tie can arise) are added after
+    the rest of the sequence was built, padded and possibly read"""
+    if spec.get("double") or draw(st.integers(0, one_in - 1)):
+        return
+    keys = [(n[0], n[1]) for n in spec["notes"]]
+    cand = [i for i, k in enumerate(keys) if keys.count(k) == 1]
+    if cand:
+        spec["late_notes"] = sorted(set(draw(st.lists(st.sampled_from(cand), min_size=1, max_size=3))))
 
 
 FAR = [1000, 65536 - 7, 65536, 100000, 2 ** 20 + 3]
